@@ -162,14 +162,17 @@ def classify(lines):
         elif st == 'POST':
             if cls != 'BLANK':
                 post_nonblank = True
-                return {'kind': 'malformed', 'reason': 'content after the signed block', 'unsigned_after': cls in ('TEXT', 'DASH'),
+                return {'kind': 'malformed', 'reason': 'content after the signed block',
+                        'unsigned_after': cls in ('TEXT', 'DASH') and not pre_nonblank and canon(body) is not None and strict,
                         'reached': reached, 'strict': strict}
     if st == 'DATA':
         return {'kind': 'plain', 'body': body, 'reached': reached, 'strict': True}
     if st != 'POST':
-        return {'kind': 'malformed', 'reason': 'truncated in state ' + st, 'truncated': True, 'reached': reached, 'strict': strict}
+        return {'kind': 'malformed', 'reason': 'truncated in state ' + st,
+                'truncated': strict and not pre_nonblank and (st == 'PREAMBLE' or canon(body) is not None),
+                'reached': reached, 'strict': strict}
     if pre_nonblank:
-        return {'kind': 'malformed', 'reason': 'content before the signed block', 'unsigned_before': True, 'reached': reached,
+        return {'kind': 'malformed', 'reason': 'content before the signed block', 'unsigned_before': False, 'reached': reached,
                 'strict': strict, 'pre': [b for b in body]}
     return {'kind': 'signed', 'body': body, 'slice': (first, last), 'reached': reached, 'strict': strict}
 
